@@ -1,0 +1,9 @@
+//go:build verif
+
+package keyproof
+
+import "github.com/privacybydesign/gabi/big"
+
+// VerifFindSafePrime exposes findSafePrime (a consumer of the concurrent safe
+// prime generator) to the simulation harness.
+func VerifFindSafePrime(size int) *big.Int { return findSafePrime(size) }
